@@ -526,6 +526,32 @@ func coqRegion(r *core.RegionInfo) string {
 	return fmt.Sprintf("(Region %s %d)", sim10.CoqPeers(sim10.FromRegion(r).Peers), r.GetLeader().GetStoreId())
 }
 
+// ruleOK lists the stores that a leader / voter rule of the region's fit selects (all stores without placement rules): computed
+// with placement.MatchLabelConstraints directly, independently of the scatterer / builder code
+func ruleOK(tc *mockcluster.Cluster, region *core.RegionInfo) string {
+	var xs []string
+	stores := tc.GetStores()
+	sort.Slice(stores, func(i, j int) bool { return stores[i].GetID() < stores[j].GetID() })
+	var rules []*placement.Rule
+	if tc.GetOpts().IsPlacementRulesEnabled() {
+		for _, rf := range tc.FitRegion(region).RuleFits {
+			rules = append(rules, rf.Rule)
+		}
+	}
+	for _, st := range stores {
+		ok := len(rules) == 0
+		for _, ru := range rules {
+			if (ru.Role == placement.Leader || ru.Role == placement.Voter) && placement.MatchLabelConstraints(st, ru.LabelConstraints) {
+				ok = true
+			}
+		}
+		if ok {
+			xs = append(xs, fmt.Sprint(st.GetID()))
+		}
+	}
+	return "[" + strings.Join(xs, "; ") + "]"
+}
+
 func labelsOf(tc *mockcluster.Cluster) string {
 	var xs []string
 	for _, k := range tc.GetOpts().GetLocationLabels() {
@@ -824,7 +850,7 @@ func runHistory(h history, emit emitFn, hidx int) []string {
 			}
 			log = append(log, fmt.Sprintf("scatter region %d %v group %q -> %s", region.GetID(), sim10.StoresOf(sim10.FromRegion(region)), a.Group, summary))
 			so := fmt.Sprintf("(Some (ScatterObs %d %s [%s] %v %s))", groupIDs[a.Group], before, strings.Join(guard, "; "), !rules, after)
-			coq := wrap08(fmt.Sprintf("(Case SScatter\n   %s\n   %s %s %s\n   %s\n   %s)", stores, labels, reject, coqRegion(region), opS, so), region, scTr)
+			coq := wrap08(fmt.Sprintf("(Case SScatter\n   %s\n   %s %s %s %s\n   %s\n   %s)", stores, labels, reject, ruleOK(tc, region), coqRegion(region), opS, so), region, scTr)
 			emit(coq, coq, true, tags, viol)
 		case "conc":
 			rs := runConcurrent(hc, sc, regions, a.Conc, a.Groups, a.Seed)
@@ -839,7 +865,7 @@ func runHistory(h history, emit emitFn, hidx int) []string {
 					continue
 				}
 				opS, tr := coqOp(region, cr.op)
-				coq := wrap08(fmt.Sprintf("(Case SScatterConc\n   %s\n   %s %s %s\n   %s\n   None)", stores, labels, reject, coqRegion(region), opS), region, tr)
+				coq := wrap08(fmt.Sprintf("(Case SScatterConc\n   %s\n   %s %s %s %s\n   %s\n   None)", stores, labels, reject, ruleOK(tc, region), coqRegion(region), opS), region, tr)
 				log = append(log, fmt.Sprintf("concurrent scatter (seed %d) region %d %v -> %s", a.Seed, region.GetID(), sim10.StoresOf(sim10.FromRegion(region)), sim10.Summary(cr.op)))
 				emit(coq, coq, true, []string{"conc:operator"}, append(anomalies(tr, sim10.Summary(cr.op)), goMonitor("scatter-concurrent", region, tr, sim10.Summary(cr.op))...))
 			}
@@ -913,7 +939,7 @@ func runHistory(h history, emit emitFn, hidx int) []string {
 					}
 					got++
 					opS, tr := coqOp(region, op)
-					coq := wrap08(fmt.Sprintf("(Case %s\n   %s\n   %s %s %s\n   %s\n   None)", coqSched(op.Desc(), a.Sched), caseStores, labels, reject, coqRegion(region), opS), region, tr)
+					coq := wrap08(fmt.Sprintf("(Case %s\n   %s\n   %s %s %s %s\n   %s\n   None)", coqSched(op.Desc(), a.Sched), caseStores, labels, reject, ruleOK(tc, region), coqRegion(region), opS), region, tr)
 					log = append(log, fmt.Sprintf("schedule %s %v -> region %d: %s", a.Sched, a.Args, region.GetID(), sim10.Summary(op)))
 					emit(coq, coq, true, []string{"sched:" + a.Sched + ":operator", "op:" + op.Desc()}, append(anomalies(tr, sim10.Summary(op)), goMonitor(a.Sched, region, tr, sim10.Summary(op))...))
 				}
